@@ -9,6 +9,7 @@ import (
 	"os"
 	"sync"
 	"time"
+	"verif/monlog"
 
 	"github.com/scionproto/scion/pkg/addr"
 	"github.com/scionproto/scion/pkg/private/ctrl/path_mgmt"
@@ -310,6 +311,14 @@ func c30Dsts(c *c30Case) []struct {
 func c30Phase3(r *mon.Run, c *c30Case) {
 	t, rng := c.topo, c.rng
 	ctx := context.Background()
+	// log level as a configuration dimension: every other case runs with a
+	// debug-enabled logger, as a daemon with log.console.level = "debug"
+	logCfg := "log=default"
+	if rng.IntN(2) == 0 {
+		ctx = monlog.Debug(ctx)
+		logCfg = "log=debug"
+	}
+	r.Class("config/" + logCfg)
 	thorough := r.Thorough()
 	now := time.Now()
 
